@@ -55,6 +55,12 @@ def conc_graph(g, model):
     return Graph(np.asarray(S.concretize(g.adjacency_matrix, model)).astype(np.int8))
 
 
+def _native_gap(it):
+    """a path of the symbolic run ended in a Python exception that escaped from a concrete operation inside the interpreter: program error or modelling gap -
+    cannot be told apart here, so the verdict is withheld (unknown) instead of refuted"""
+    return any(getattr(r, "native", False) for r in it.raised)
+
+
 def _rec(name, status, backend="", t=0.0, info="", cex=None, native=None):
     return (name, status, backend, round(t, 4), info, cex, native)
 
@@ -121,7 +127,7 @@ def task_segA(n, m):
             if Rs.shape != (n * m, 4 * n) or len(cs) != 4:
                 return [_rec(name, "unknown", "pyvc", 0, f"structure drift: Rs has shape {Rs.shape}, cs has {len(cs)} entries")], {}
             if it.raised or flow.normal is not True:
-                return [_rec(name, "refuted", "pyvc", 0, "the set-up segment can raise / does not complete: " + str([(x.etype, x.where) for x in it.raised]))], {}
+                return [_rec(name, "unknown" if _native_gap(it) else "refuted", "pyvc", 0, "the set-up segment can raise / does not complete: " + str([(x.etype, x.where) for x in it.raised]))], {}
             row = S.fresh_bits("w", (4 * n,))
             blocks = spec_blocks(row, cs, n)
             lhs = spec_lhs(R, Sm, g.adjacency_matrix, blocks, n, m)
@@ -203,7 +209,7 @@ def task_segC(rank, width):
                 want[t, c] = L.XOR(*[kernel[i, c] for i in range(rank) if lam[i]]) if rank else 0
         ok = isinstance(cc, np.ndarray) and cc.shape == want.shape and not it.raised
         if not ok:
-            return [_rec(name, "refuted", "pyvc", time.time() - t0, f"cc has shape {getattr(cc, 'shape', None)}, expected {want.shape}; raised {[(r.etype) for r in it.raised]}")], {}
+            return [_rec(name, "unknown" if _native_gap(it) else "refuted", "pyvc", time.time() - t0, f"cc has shape {getattr(cc, 'shape', None)}, expected {want.shape}; raised {[(r.etype) for r in it.raised]}")], {}
         v = X.prove([], S.bexpr(L.EQ(cc, want)))
         return [_rec(name, v.status, v.backend, time.time() - t0, v.info)], {}
     return task
@@ -379,7 +385,7 @@ def task_check_LC(n, m):
                         terms.append(X.And(L.bit(A[3][i, q]), L.bit(Sm[q, j])))
                     spec.append(X.Xor(*terms))
             if not isinstance(LHS, np.ndarray) or LHS.shape != (n, m):
-                return [_rec(name, "refuted", "pyvc", 0, f"LHS has shape {getattr(LHS, 'shape', None)}")], {}
+                return [_rec(name, "unknown" if _native_gap(it) else "refuted", "pyvc", 0, f"LHS has shape {getattr(LHS, 'shape', None)}")], {}
             code = [L.bit(LHS[i, j]) for i in range(n) for j in range(m)]
             polys, _ = X.anf([X.Xor(a, b) for a, b in zip(code, spec)])
             bad = [k for k, p_ in enumerate(polys) if p_]
